@@ -329,6 +329,20 @@ pub fn bases(seed: u64, thorough: bool) -> Vec<(String, Vec<u8>)> {
             Call::AddDir { name: "notes.txt".into(), opts: FOpts::m(0) },
         ]),
     ));
+    // DOS stamps no calendar has (all-zero words, month 0 / day 0, month 13, hour 31 / second field 31): whatever the base
+    // records is what an append round must leave there
+    v.push((
+        "builder:stamps-outside-the-calendar".into(),
+        b(Spec {
+            entries: vec![
+                ESpec { date: 0, time: 0, ..e(b"zero-words", 8) },
+                ESpec { date: (40 << 9) | (0 << 5) | 0, time: (10 << 11) | (20 << 5) | 15, ..e(b"month0-day0", 0) },
+                ESpec { date: (40 << 9) | (13 << 5) | 31, time: 0xffff, ..e(b"month13-time-all-ones", 8) },
+                ESpec { date: (127 << 9) | (5 << 5) | 0, time: (31 << 11) | 1, ..e(b"day0-hour31", 0) },
+            ],
+            ..Default::default()
+        }),
+    ));
     v.push(("builder:prefix-1000".into(), b(Spec { prefix: vec![0x5a; 1000], entries: vec![e(b"p1", 8), e(b"p2", 0)], comment: b"pc".to_vec(), ..Default::default() })));
     v.push(("builder:zip64-eocd-forced".into(), b(Spec { entries: vec![e(b"z1", 8)], force_zip64_eocd: true, ..Default::default() })));
     v.push(("builder:zip64-eocd-forced-empty".into(), b(Spec { force_zip64_eocd: true, comment: b"e".to_vec(), ..Default::default() })));
